@@ -291,7 +291,7 @@ def _scn_methods():
         st = self.st[uid]
         n0 = spec.get('n0', MAXN)
         sub = L['RecSubscriber'](self.world, side, uid, dirn, n0=n0, refill=spec.get('refill', 0),
-                                 raise_at=spec.get('raise_at'))
+                                 raise_at=spec.get('raise_at'), cancel_at=spec.get('cancel_at'))
         st['sub'][dirn] = sub
         if request_on_subscribe:
             orig = sub.on_subscribe
@@ -334,6 +334,8 @@ def _scn_methods():
         self.st[uid] = st
         self.started.append(uid)
         d, m = A.payload_bytes(uid, A.TAG_REQ, 0, spec.get('req', [1, 0]))
+        if spec.get('req_meta') is not None:
+            m = spec['req_meta']  # explicit metadata bytes (composite metadata for routed requests)
         payload = A.mk_payload(d, m, self.none_empty)
         k = spec['k']
         sc = getattr(sock, '_stream_control', None)
@@ -586,7 +588,8 @@ async def _execute(loop, program, observe=None):
             scn.raw = r
             scn.raws.append(r)
         if raw_side != 's':
-            srv = RSocketServer(c.transport['s'], handler_factory=make_handler_class(scn, 's'),
+            hf = (program.get('_handler_factory') or {}).get('s')
+            srv = RSocketServer(c.transport['s'], handler_factory=hf(scn) if hf else make_handler_class(scn, 's'),
                                 fragment_size_bytes=frag[1], **common, **skw)
             scn.sock['s'] = srv
             scn.servers.append(srv)
@@ -615,7 +618,8 @@ async def _execute(loop, program, observe=None):
                 world.ev('c', 'provider_yield', cx=i)
                 yield c.transport['c']
 
-        client = RSocketClient(provider(), handler_factory=make_handler_class(scn, 'c'),
+        hfc = (program.get('_handler_factory') or {}).get('c')
+        client = RSocketClient(provider(), handler_factory=hfc(scn) if hfc else make_handler_class(scn, 'c'),
                                fragment_size_bytes=frag[0], **common, **ckw)
         scn.sock['c'] = client
         if cfg.get('connect_async'):
@@ -720,6 +724,12 @@ async def _execute(loop, program, observe=None):
         elif name == 'lease':
             if lease_pub is not None:
                 lease_pub.publish(op[1], op[2])
+        elif name == 'call':
+            fn = (program.get('_actions') or {}).get(op[1])
+            if fn is not None:
+                r = fn(scn, *op[2:])
+                if asyncio.iscoroutine(r):
+                    await r
         elif name == 'blackhole':
             world.ev('net', 'blackhole', link=op[1])
             conn.link[op[1]].blackhole = True
